@@ -166,8 +166,14 @@ def replay(core, mod, path):
     sig = core.outcome_sig(out)
     for line in out.get("log") or []:
         print("  " + line)
-    if out["outcome"] == "harness":
-        print(out["trace"], file=sys.stderr)
+    if out["outcome"] in ("harness", "invalid"):
+        text = out.get("trace") or out.get("why") or ""
+        print(text, file=sys.stderr)
+        if str(rep.get("signature", "")).startswith("harness-exception:"):
+            # recorded as such by the batch (see there): the harness cannot interpret what the implementation did
+            print(f"signature: {rep['signature']} (exception inside the harness, reproducible for this spec)")
+            print(f"VIOLATION property={mod.PROP} replay={path}")
+            return 1
         return 2
     for fid, text in out.get("known") or []:
         print(f"KNOWN-FINDING: property={mod.PROP} {fid}: {text}")
@@ -301,14 +307,46 @@ def batch(core, mod, prop, seed, n, args, scratch, t0):
     for idx, vsig, outcome in collateral[:3]:
         print(f"NOTE: run {idx} reported {vsig} in the batch but is clean in a process of its own; attributed to memory "
               f"damage left behind by an earlier violating run of the same worker process")
+    if total.harness and not replay_paths:
+        # An exception inside the harness's own code. If it reproduces for the same spec in a process of its own it is a
+        # function of (spec, code under test): the implementation did something the model cannot even interpret (returned
+        # None where an object is documented, ...). On the unchanged tree no spec does that - it would be a broken check
+        # either way - so it is reported as a violation with its replay; what does not reproduce stays a harness error.
+        for h in total.harness[:3]:
+            idx, tr = h[0], h[1]
+            phase = h[2] if len(h) > 2 else None
+            if idx is None:
+                continue
+            vmod = mod.PHASE_MODULES[phase] if phase else mod
+            try:
+                spec = core.make_spec(vmod, seed, idx)
+            except Exception:  # noqa: BLE001
+                continue
+            out = core.execute_isolated(vmod, spec, keep_log=10000)
+            if out["outcome"] not in ("harness", "invalid"):
+                continue
+            text = (out.get("trace") or out.get("why") or "").strip()
+            last = text.splitlines()[-1] if text else "?"
+            sig = "harness-exception:" + (last.split(":")[0].strip() if out["outcome"] == "harness" else "InvalidSpec")
+            rdir = os.environ.get("VERIF_REPLAY_DIR") or os.path.join(HERE, "replays")
+            os.makedirs(rdir, exist_ok=True)
+            path = os.path.join(rdir, f"{prop}-{seed}-{idx}.json")
+            with open(path, "w") as f:
+                json.dump({"property": prop, "verif_seed": seed, "run_index": idx, "signature": sig, "phase": phase,
+                           "detail": {"trace": text[-3000:]}, "original_ops": len(spec["ops"]), "minimised_ops": len(spec["ops"]),
+                           "digest": None, "spec": spec, "event_log": None}, f, indent=1, default=core._json_default)
+            print(f"HARNESS-EXCEPTION in run {idx}, reproducible for this spec (reported as a violation):\n{text[-2500:]}", file=sys.stderr)
+            replay_paths.append((path, sig, idx))
+            new_violations.append((idx, {"sig": sig, "detail": {"trace": text[-500:]}, "step": None}))
+            break
     wall = time.monotonic() - t0
     stale, rebuilt = BUILD_INFO
     if not args.no_evidence:
         write_evidence(core, mod, prop, seed, args, total, truncated, det, known_seen, new_violations,
                        replay_paths, wall, wall_runs, stale, extra_info)
 
-    if total.harness:
-        idx, tr = total.harness[0]
+    if total.harness and not replay_paths:
+        idx, tr = total.harness[0][0], total.harness[0][1]
         print(f"HARNESS-ERROR in run {idx} ({len(total.harness)} total):\n{tr}", file=sys.stderr)
         return 2
     if not det["ok"]:
